@@ -27,6 +27,43 @@ pub fn replay(prop: &str, case: &str) -> i32 {
         }
     };
     match prop {
+        "C05" if get(&parts, "xthread_drop_race").is_some() || get(&parts, "xthread_seed").is_some() => {
+            // real-thread cases: a race, re-executed many times (exit 0 means "did not show up in
+            // this many trials", not a proof of absence)
+            let rev = get(&parts, "rev") == Some("1");
+            let out = if get(&parts, "xthread_drop_race").is_some() {
+                let n: usize = get(&parts, "n").and_then(|x| x.parse().ok()).unwrap_or(40);
+                crate::threads::xthread_drop_race(n, 3000, rev).0
+            } else {
+                let gs = match GraphSpec::decode(get(&parts, "g").unwrap_or("")) {
+                    Ok(g) => g,
+                    Err(e) => {
+                        println!("replay: {e}");
+                        return 2;
+                    }
+                };
+                let seed: u64 = get(&parts, "xthread_seed").and_then(|x| x.parse().ok()).unwrap_or(0);
+                let workers: usize = get(&parts, "workers").and_then(|x| x.parse().ok()).unwrap_or(2);
+                let mut st = crate::threads::XStats::default();
+                let mut all = Vec::new();
+                for k in 0..200 {
+                    all = crate::threads::xthread_stream(&gs, seed.wrapping_add(k * 0x9E37), workers, rev, &mut st);
+                    if !all.is_empty() {
+                        break;
+                    }
+                }
+                all
+            };
+            for v in &out {
+                println!("violated: {} {}: {}", v.prop, v.kind, v.detail);
+            }
+            if out.is_empty() {
+                println!("replay: did not show up in this many trials (real threads: a race)");
+                0
+            } else {
+                1
+            }
+        }
         "C01" | "C02" | "C03" | "C04" | "C05" | "C06" | "C07" | "C08" | "C09" | "C10" => {
             let (Some(g), Some(r), Some(t)) = (get(&parts, "g"), get(&parts, "r"), get(&parts, "t").or(Some(""))) else {
                 println!("replay: case needs g, r, t");
